@@ -285,7 +285,7 @@ func runC10Late(t *testing.T, seed uint64, planJSON []byte, tier string) (res *R
 			ep.Outcome = "commit"
 			ep.StopOnErr = true
 			nth := 1 + g.Intn(len(ep.Branches))
-			ep.TCRules = []simtc.Rule{{Code: simtc.TBranchRegister, Nth: nth, Action: simtc.ActRollbackNow}}
+			ep.TCRules = []simtc.Rule{{Code: simtc.TBranchRegister, Nth: nth, Action: simtc.ActRollbackNow, Msg: simkit.Pick(g, []string{"", "x2", "x3", "x2"})}}
 			ep.Redeliver = g.Range(0, 2)
 		}
 	}
